@@ -393,7 +393,10 @@ class H2Connection(Protocol, TimeoutMixin):
 
         remainingWindow = self.conn.local_flow_control_window(stream)
         frameData = self._outboundStreamQueues[stream].popleft()
-        maxFrameSize = min(self.conn.max_outbound_frame_size, remainingWindow)
+        # The window can be negative after the peer lowered
+        # SETTINGS_INITIAL_WINDOW_SIZE (RFC 7540, 6.9.2); never slice with a
+        # negative bound.
+        maxFrameSize = max(0, min(self.conn.max_outbound_frame_size, remainingWindow))
 
         if frameData is _END_STREAM_SENTINEL:
             # There's no error handling here even though this can throw
